@@ -94,7 +94,10 @@ func checkC14Output(c c14Case, output string, build func() (*exec.Graph, error))
 		if !used[m.Name] {
 			continue
 		}
-		if rg.InputDefinitelyUnavailable(m) {
+		// "an input exists at the initial block" is read as graph.go reads it: a source input, a map/store input
+		// that has started, or params when they are the module's only input (the documented special case); params
+		// next to later-starting inputs do not make the module runnable at its initial block
+		if !rg.InputAvailable(m) {
 			mustReject = true
 		}
 		if !rg.InputAvailable(m) {
